@@ -5,7 +5,7 @@
 package genql
 
 // every function of the package: error results are propagated (C19)
-//@ package-wide errors[C19] locks[C13,C10,C14] safety[C10] frame[C11] nonnil-params
+//@ package-wide errors[C19] locks[C13,C10,C14] safety[C10] frame[C11] order[C12] nonnil-params
 //
 // C11: every write to a map[string]any or []any targets an object the writing activation allocated, an object named in a
 // `writes` clause of its contract, or a map the engine owns (held in the fields and globals listed here, never part of a document).
@@ -531,3 +531,22 @@ package genql
 
 //@ func (*Query).execAndPostProcess
 //@   at-call dynamic assert wait-first[C14]: waited(&query.wg)
+
+// ---------------------------------------------------------------------------
+// C12: plain results, order dependence
+
+// joins promise the multiset of pairs, not an order (the statement says so): their results are collected while ranging over hash tables
+//@ func (*Join).HashJoinFunc
+//@   unordered append(slice, matches...) :: join results are a multiset; the statement excludes joins from the identical-sequence claim
+//@ func (*Join).JoinFunc
+//@   unordered append(slice, matches...) :: join results are a multiset; the statement excludes joins from the identical-sequence claim
+//@ func (*Join).JoinMatchFunc
+//@   unordered append(slice, mapper) :: join results are a multiset; the statement excludes joins from the identical-sequence claim
+//@   unordered append(slice, out) :: join results are a multiset; the statement excludes joins from the identical-sequence claim
+
+//@ func SelectExpr
+//@   unordered append(query.postProcessors, func() error { delete(data, "<-… :: the appended post-processors are identical closures (delete of the same key of the same row): their order is immaterial
+//@   at-call mapstore@loop1 assert star-is-data[C12]: !typeis(stored, CteEvaluation)
+
+//@ func SelectExpr$2
+//@   at-call mapstore:data[name] assert slot-dereferenced[C12,C14]: !typeis(stored, *any)
